@@ -68,6 +68,17 @@ def t_node(rng, alpha, size, depth=0):
     return {"k": "rep", "a": t_node(rng, alpha, size - 1, depth + 1), "m": m, "n": n}
 
 
+def substr_node(rng):
+    """%regex substring over a tiny alphabet so that chunks repeat (the suffix automaton then
+    needs its clone states)"""
+    syms = rng.choice([[97, 98], [97, 98, 99], [97, 233], [48, 49, 32]])
+    if rng.random() < 0.5:
+        chunks = [[rng.choice(syms)] for _ in range(rng.randint(3, 9))]
+    else:
+        chunks = [[rng.choice(syms) for _ in range(rng.randint(1, 2))] for _ in range(rng.randint(3, 7))]
+    return {"k": "substr", "chunks": chunks}
+
+
 def is_rlevel(x):
     k = x["k"]
     if k in ("and", "not", "substr"):
